@@ -541,6 +541,21 @@ def input_pure(ctx: core.Ctx, mod: ast.Module, rule="INPUT-PURE"):
     ctx.rule(rule, "the constructors on the compile path do not store into the objects they are given (nor into attributes that alias them)")
     path = [("Model", "__init__"), ("SensorModel", "__init__"), ("ExtendedKalmanFilter", "__init__"), ("ExtendedKalmanFilter", "_construct_process"),
             ("ExtendedKalmanFilter", "_construct_sensors"), (None, "compile_ekf"), (None, "compile")]
+    # the compiled block keeps what it was given (`self._config = config`, ...): every method of BasicBlock is on the compile path, and an attribute
+    # that __init__ binds to a parameter is a given object in all of them (the Config's python_modules dict is the user's own)
+    bb = core.find_class(mod, "BasicBlock")
+    given_attrs = {}
+    if bb is not None:
+        ini = core.find_func(bb, "__init__")
+        ipar = {a.arg for a in ini.args.posonlyargs + ini.args.args + ini.args.kwonlyargs} - {"self"} if ini is not None else set()
+        for a in (ast.walk(ini) if ini is not None else ()):
+            if isinstance(a, ast.Assign) and isinstance(a.value, ast.Name) and a.value.id in ipar:
+                for t in a.targets:
+                    if isinstance(t, ast.Attribute) and isinstance(t.value, ast.Name) and t.value.id == "self":
+                        given_attrs[ast.unparse(t)] = a.value.id
+        for m in bb.body:
+            if isinstance(m, ast.FunctionDef) and ("BasicBlock", m.name) not in path:
+                path.append(("BasicBlock", m.name))
     n = 0
     for cname, fname in path:
         scope = core.find_class(mod, cname) if cname else mod
@@ -552,19 +567,40 @@ def input_pure(ctx: core.Ctx, mod: ast.Module, rule="INPUT-PURE"):
         params = {a.arg for a in fn.args.posonlyargs + fn.args.args + fn.args.kwonlyargs} - {"self", "cls"}
         # attributes / locals that are plain aliases of a parameter
         alias = {}
+        gattrs = given_attrs if cname == "BasicBlock" and fname != "__init__" else {}
 
         def given_root(v):
             """the parameter a value is a part of, when the value is the parameter itself or reached from it by attribute / item access (no call in
-            between: `dict(p)`, `p.copy()`, a comprehension make a new object)"""
+            between: `dict(p)`, `p.copy()`, a comprehension make a new object); a display / conditional holding such a value carries it on"""
+            if isinstance(v, (ast.Tuple, ast.List)):
+                for e in v.elts:
+                    r_ = given_root(e.value if isinstance(e, ast.Starred) else e)
+                    if r_ is not None:
+                        return r_
+                return None
+            if isinstance(v, ast.IfExp):
+                return given_root(v.body) or given_root(v.orelse)
             while isinstance(v, (ast.Attribute, ast.Subscript)):
+                if gattrs and ast.unparse(v) in gattrs:
+                    return "the block's " + gattrs[ast.unparse(v)]
                 v = v.value
             if isinstance(v, ast.Name):
                 if v.id in params:
                     return v.id
                 return alias.get(v.id)
             return None
-        for a in sorted((x for x in ast.walk(fn) if isinstance(x, ast.Assign)), key=lambda x: (x.lineno, x.col_offset)):
-            r = given_root(a.value) if isinstance(a.value, (ast.Name, ast.Attribute, ast.Subscript)) else None
+        for a in sorted((x for x in ast.walk(fn) if isinstance(x, (ast.Assign, ast.For))), key=lambda x: (x.lineno, x.col_offset)):
+            if isinstance(a, ast.For):
+                it_ = a.iter
+                if isinstance(it_, ast.Call) and isinstance(it_.func, ast.Attribute) and it_.func.attr in ("values", "items") and not it_.args:
+                    it_ = it_.func.value
+                r = given_root(it_) if isinstance(it_, (ast.Name, ast.Attribute, ast.Subscript, ast.Tuple, ast.List)) else None
+                if r is not None:
+                    for t in ast.walk(a.target):
+                        if isinstance(t, ast.Name):
+                            alias[t.id] = r
+                continue
+            r = given_root(a.value) if isinstance(a.value, (ast.Name, ast.Attribute, ast.Subscript, ast.Tuple, ast.List, ast.IfExp)) else None
             for t in a.targets:
                 if r is not None and isinstance(t, (ast.Name, ast.Attribute)):
                     alias[ast.unparse(t)] = r
@@ -587,7 +623,12 @@ def input_pure(ctx: core.Ctx, mod: ast.Module, rule="INPUT-PURE"):
             if w.kind == "attr":
                 continue
             root = w.target.split("[")[0]
-            base = root if root in alias or root in params else (root.split(".")[0] if root.split(".")[0] in params else None)
+            base = root if root in alias or root in params else (root.split(".")[0] if root.split(".")[0] in params or root.split(".")[0] in alias else None)
+            if base is None and gattrs:
+                hit = next((ga for ga in gattrs if root == ga or root.startswith(ga + ".")), None)
+                if hit is not None:
+                    bad.append((w, "the block's " + gattrs[hit]))
+                    continue
             if base is None:
                 continue
             if base in fresh_from and (w.line or 0) > fresh_from[base]:
